@@ -244,6 +244,13 @@ class Constant(DataclassHideDefault):
             return False
         return constant_key(self.constant) == constant_key(__o.constant)
 
+    def __hash__(self) -> int:
+        from ._constants import constant_key
+
+        # Hash the same key we use for equality, so that equal constants
+        # have equal hashes, even if they are nan
+        return hash((constant_key(self.constant), self._index_override))
+
 
 @dataclass(frozen=True)
 class Freevar(DataclassHideDefault):
